@@ -197,6 +197,7 @@ def stakeCalls (s : SState) : OpS → Nat
 
 def isSlashOp : OpS → Bool
   | .slash .. => true
+  | .slashRefill .. => true
   | _ => false
 
 /-- **every call of a slash-free history is a path** of at most `stakeCalls` mint / burn calls. -/
@@ -204,6 +205,7 @@ theorem kpath_applyOpS {s s' : SState} {op : OpS} (hns : isSlashOp op = false) (
     ∃ evs sts, KPath s evs sts s' ∧ evs.length ≤ stakeCalls s op := by
   cases op with
   | slash _ _ _ _ => cases hns
+  | slashRefill _ _ _ _ _ => cases hns
   | epochO ups order =>
     unfold applyOpS at hc
     obtain ⟨q, hq, hqs⟩ := map_ok hc
@@ -380,32 +382,66 @@ theorem stkInv_kpath {s s' : SState} {evs : List StkEv} {sts : List SState} (hp 
     | mint a key => exact stkInv_mintS (s := { s0 with b := b0 }) h ha
     | burn a key => exact stkInv_burnS (s := { s0 with b := b0 }) h ha
 
+/-- a validator that loses between none and all of its tokens, and no share, keeps the staking-state invariant. -/
+theorem stkInv_burnTokens {k : Stk} {val : Nat} {burn : Int} (h : StkInv k) (hb0 : 0 ≤ burn) (hb1 : burn ≤ (k.val val).tokens) :
+    StkInv (setVal k val { (k.val val) with tokens := (k.val val).tokens - burn }) := by
+  obtain ⟨hT0, hS0⟩ := h.2 val
+  have hv : ∀ v, (setVal k val { (k.val val) with tokens := (k.val val).tokens - burn }).val v =
+      if v = val then { (k.val val) with tokens := (k.val val).tokens - burn } else k.val v := by
+    intro v; simp only [setVal, upd]
+  have hsh : ∀ x, shOf (setVal k val { (k.val val) with tokens := (k.val val).tokens - burn }) x = shOf k x := by
+    intro x; rfl
+  constructor
+  · intro v
+    constructor
+    · intro key hk; rw [hsh]; exact (h.1 v).1 key hk
+    · intro L hnd hL
+      have := (h.1 v).2 L hnd hL
+      rw [sumSh_congr L (fun x _ => hsh x), hv v]
+      split
+      · rename_i e'; subst e'; exact this
+      · exact this
+  · intro v
+    rw [hv v]
+    split
+    · rename_i e'; subst e'
+      exact ⟨by show 0 ≤ _ - burn; omega, hS0⟩
+    · exact h.2 v
+
 theorem stkInv_slashS {s s' : SState} {val : Nat} {p fr : Int} {skip : List Nat} {burn : Int} (hI : Inv s.b) (h : StkInv s.k)
     (hc : slashS s val p fr skip = .ok (s', burn)) : StkInv s'.k := by
   rcases slashS_ok hI hc with ⟨_, e⟩ | ⟨_, _, a, hb, b1, _, _, e⟩
   · subst e; exact h
-  · obtain ⟨hT0, hS0⟩ := h.2 val
+  · obtain ⟨hT0, _⟩ := h.2 val
     obtain ⟨b0, b1'⟩ := burnAmount_bounds a (s.k.val val).tokens hT0
-    have hd : s'.k.dsh = s.k.dsh := by subst e; rfl
-    have hv : ∀ v, s'.k.val v = if v = val then { (s.k.val val) with tokens := (s.k.val val).tokens - burn } else s.k.val v := by
-      intro v; subst e; simp only [setVal, upd]
-    have hsh : ∀ x, shOf s'.k x = shOf s.k x := by intro x; unfold shOf; rw [hd]
-    constructor
-    · intro v
-      constructor
-      · intro key hk; rw [hsh]; exact (h.1 v).1 key hk
-      · intro L hnd hL
-        have := (h.1 v).2 L hnd hL
-        rw [sumSh_congr L (fun x _ => hsh x), hv v]
-        split
-        · rename_i e'; subst e'; exact this
-        · exact this
-    · intro v
-      rw [hv v]
-      split
-      · rename_i e'; subst e'
-        exact ⟨by show 0 ≤ _ - burn; omega, hS0⟩
-      · exact h.2 v
+    subst e
+    exact stkInv_burnTokens h (by omega) (by omega)
+
+/-- the hooks of the top-ups are a path of at most one mint each. -/
+theorem kpath_refillHooks : ∀ (r : List (Nat × Int)) (s s' : SState), refillHooks s r = .ok s' →
+    ∃ evs sts, KPath s evs sts s' ∧ evs.length ≤ r.length
+  | [], s, s', hc => by
+    unfold refillHooks at hc; injection hc with hc; subst hc; exact ⟨[], [], KPath.refl _, by simp⟩
+  | (id, a) :: r, s, s', hc => by
+    unfold refillHooks at hc
+    split at hc
+    · cases hc
+    · split at hc
+      · cases hc
+      · split at hc
+        · cases hc
+        · rename_i s1 h1
+          obtain ⟨e1, t1, p1, l1⟩ := kpath_hook h1
+          obtain ⟨e2, t2, p2, l2⟩ := kpath_refillHooks r s1 s' hc
+          exact ⟨e1 ++ e2, t1 ++ t2, p1.append p2, by simp only [List.length_append, List.length_cons]; omega⟩
+
+theorem stkInv_slashRefillS {s s' : SState} {val : Nat} {p fr : Int} {skip : List Nat} {refill : List (Nat × Int)} {burn : Int}
+    (hI : Inv s.b) (h : StkInv s.k) (hc : slashRefillS s val p fr skip refill = .ok (s', burn)) : StkInv s'.k := by
+  obtain ⟨_, _, a, hb, b1, _, _, hh⟩ := slashRefillS_ok hI hc
+  obtain ⟨hT0, _⟩ := h.2 val
+  obtain ⟨b0, b1'⟩ := burnAmount_bounds a (s.k.val val).tokens hT0
+  obtain ⟨evs, sts, hp, _⟩ := kpath_refillHooks _ _ _ hh
+  exact stkInv_kpath hp (stkInv_burnTokens h (by omega) (by omega))
 
 /-- **the staking-state invariant holds along EVERY history** — slashes, epochs in any order, any exchange rate. -/
 theorem stkInv_runS : ∀ (ops : List OpS) (s : SState), Inv s.b → StkInv s.k → StkInv (runS s ops).k
@@ -425,6 +461,13 @@ theorem stkInv_runS : ∀ (ops : List OpS) (s : SState), Inv s.b → StkInv s.k 
           obtain ⟨r', hr, hqr⟩ := map_ok (show (slashS s v p f x).map _ = .ok q from hq)
           subst hqr
           exact stkInv_slashS hI h (show slashS s v p f x = .ok (r'.1, r'.2) from hr)
+        | slashRefill v p f x t =>
+          unfold applyOpS at hc
+          obtain ⟨q, hq, hqs⟩ := map_ok hc
+          subst hqs
+          obtain ⟨r', hr, hqr⟩ := map_ok (show (slashRefillS s v p f x t).map _ = .ok q from hq)
+          subst hqr
+          exact stkInv_slashRefillS hI h (show slashRefillS s v p f x t = .ok (r'.1, r'.2) from hr)
         | base _ => cases hs
         | epochO _ _ => cases hs
       · obtain ⟨evs, sts, hp, _⟩ := kpath_applyOpS (by simpa using hs) hc
